@@ -8,6 +8,8 @@ import (
 // concrete length with symbolic (ASCII) bytes. Returns one Bool term, no forks.
 func (r *RegexObj) matchTerm(s StrVal) *Term {
 	prog := r.prog
+	// Byte-wise simulation is exact for non-ASCII input iff no instruction can consume a
+	// non-ASCII rune; otherwise the input must be ASCII (checked by the caller via asciiOnly).
 	n := len(s.b)
 	result := tFalse
 	// active[pc] at current position
@@ -155,4 +157,29 @@ func refGlobTerm(pat string, s StrVal) *Term {
 		return t
 	}
 	return m(0, 0)
+}
+
+// consumesNonASCII: can some instruction of the program match a rune >= 0x80?
+func (r *RegexObj) consumesNonASCII() bool {
+	for i := range r.prog.Inst {
+		in := &r.prog.Inst[i]
+		switch in.Op {
+		case syntax.InstRuneAny, syntax.InstRuneAnyNotNL:
+			return true
+		case syntax.InstRune, syntax.InstRune1:
+			rs := in.Rune
+			if len(rs) == 1 {
+				if rs[0] >= 0x80 {
+					return true
+				}
+				continue
+			}
+			for j := 0; j+1 < len(rs); j += 2 {
+				if rs[j+1] >= 0x80 {
+					return true
+				}
+			}
+		}
+	}
+	return false
 }
